@@ -95,6 +95,50 @@ Qed.
 Lemma count_char_app c a b : count_char c (a ++ b) = (count_char c a + count_char c b)%nat.
 Proof. unfold count_char. rewrite filter_app, app_length. reflexivity. Qed.
 
+Section HostLegal.
+Variables (ptxt : text) (pres : option Z).
+Hypothesis port_ok :
+  (ptxt = [] /\ pres = None) \/
+  (exists ds p, ptxt = 58 :: ds /\ pres = Some p /\ py_int ds = Some p /\ all_ascii ds = true /\
+                forallb (not_in [64; 47; 63; 35; 93]) ds = true /\ forallb is_digit ds = true).
+
+(* a reg-name (IPv4 included) followed by the rendered port *)
+Lemma hostport_legal_plain h :
+  h <> [] -> forallb (not_in [58; 64; 47; 63; 35]) h = true -> legal (ok_regname false) h = true ->
+  hostport_ok false (h ++ ptxt) = true.
+Proof.
+  intros NE HC HL. unfold hostport_ok.
+  destruct h as [|h0 hr]; [contradiction|]. cbn [app].
+  assert (B : (h0 =? 91) = false).
+  { cbn [legal] in HL. destruct (h0 =? 91) eqn:B; [|reflexivity]. apply N.eqb_eq in B. subst h0. discriminate. }
+  rewrite B. change (h0 :: hr ++ ptxt) with ((h0 :: hr) ++ ptxt).
+  unfold regname_port_ok.
+  assert (H58 : forallb (nin [58]) (h0 :: hr) = true).
+  { apply (forallb_weaken [58; 64; 47; 63; 35] [58]); [|exact HC].
+    intros c Hc. cbn [memN] in *. rewrite orb_false_r in Hc. rewrite Hc. reflexivity. }
+  destruct port_ok as [[-> _]|[ds [p [-> [_ [_ [_ [_ D]]]]]]]].
+  - rewrite (span_stop _ (h0 :: hr) [] H58) by reflexivity. rewrite HL. reflexivity.
+  - rewrite (span_stop _ (h0 :: hr) (58 :: ds) H58) by reflexivity. rewrite HL. exact D.
+Qed.
+
+(* '[' h ']' followed by the rendered port, h made of hex digits, ':' and '.' *)
+Lemma hostport_legal_v6 h :
+  h <> [] -> forallb (fun c => hexdig c || memN c [58; 46]) h = true ->
+  hostport_ok false (([91] ++ h ++ [93]) ++ ptxt) = true.
+Proof.
+  intros NE HC. unfold hostport_ok. cbn [app]. rewrite N.eqb_refl.
+  unfold ipliteral_port_ok.
+  assert (H93 : forallb (nin [93]) h = true).
+  { rewrite forallb_forall in *. intros c Hc. specialize (HC c Hc). unfold nin. cbn [memN].
+    destruct (c =? 93) eqn:E; [|reflexivity]. apply N.eqb_eq in E. subst c. discriminate. }
+  replace ((h ++ [93]) ++ ptxt) with (h ++ 93 :: ptxt) by (rewrite <- app_assoc; reflexivity).
+  rewrite (span_stop _ h (93 :: ptxt) H93) by reflexivity.
+  destruct h as [|h0 hr]; [contradiction|]. rewrite HC. cbn [andb].
+  destruct port_ok as [[-> _]|[ds [p [-> [_ [_ [_ [_ D]]]]]]]]; [reflexivity|].
+  rewrite N.eqb_refl. exact D.
+Qed.
+End HostLegal.
+
 Section Legal.
 Variable T : tables.
 Variable O : oracles.
@@ -103,43 +147,24 @@ Let nfc := o_nfc O.
 Let qf := quote_full T O.
 Variable ht : text.
 Hypothesis ht_ne : ht <> [].
-Hypothesis ht_chars : forallb (not_in [58; 64; 47; 63; 35]) ht = true.
-Hypothesis ht_regname : legal (ok_regname false) ht = true.      (* RFC 3986 reg-name (IPv4 included) *)
+Hypothesis ht_chars : forallb (not_in [64; 47; 63; 35]) ht = true.
 Variables (ptxt : text) (pres : option Z).
 Hypothesis port_ok :
   (ptxt = [] /\ pres = None) \/
   (exists ds p, ptxt = 58 :: ds /\ pres = Some p /\ py_int ds = Some p /\ all_ascii ds = true /\
                 forallb (not_in [64; 47; 63; 35; 93]) ds = true /\ forallb is_digit ds = true).
 
+Hypothesis hostport_legal : hostport_ok false (ht ++ ptxt) = true.
+
 Lemma qf_legal_at c s : scalar_nfc O s -> legal (ok_at (position_of c)) (qf c s) = true.
 Proof. intro S. apply (quote_full_legal T O TOK c s S). Qed.
-
-Lemma ht_not_bracket : match ht ++ ptxt with c :: _ => (c =? 91) = false | [] => False end.
-Proof.
-  destruct ht as [|h0 hr] eqn:E; [contradiction|]. cbn [app].
-  cbn [legal] in ht_regname. destruct (h0 =? 91) eqn:B; [|reflexivity].
-  apply N.eqb_eq in B. subst h0. discriminate.
-Qed.
-
-Lemma hostport_legal : hostport_ok false (ht ++ ptxt) = true.
-Proof.
-  pose proof ht_not_bracket as NB. unfold hostport_ok.
-  destruct (ht ++ ptxt) as [|c r] eqn:E; [contradiction|]. rewrite NB. rewrite <- E. clear NB E c r.
-  unfold regname_port_ok.
-  assert (H58 : forallb (nin [58]) ht = true).
-  { apply (forallb_weaken [58; 64; 47; 63; 35] [58]); [|exact ht_chars].
-    intros c Hc. cbn [memN] in *. rewrite orb_false_r in Hc. rewrite Hc. reflexivity. }
-  destruct port_ok as [[-> _]|[ds [p [-> [_ [_ [_ [_ D]]]]]]]].
-  - rewrite (span_stop _ ht [] H58) by reflexivity. rewrite ht_regname. reflexivity.
-  - rewrite (span_stop _ ht (58 :: ds) H58) by reflexivity. rewrite ht_regname. exact D.
-Qed.
 
 Lemma userinfo_at user pw :
   scalar_nfc O user -> scalar_nfc O pw ->
   authority_ok false (authority T O ht ptxt user pw) = true.
 Proof.
   intros Su Sp. unfold authority_ok, authority, userinfo.
-  assert (HP64 : memN 64 (ht ++ ptxt) = false) by (apply (hostinfo_no_at ht (weaken_host_chars ht ht_chars) ptxt pres port_ok)).
+  assert (HP64 : memN 64 (ht ++ ptxt) = false) by (apply (hostinfo_no_at ht ht_chars ptxt pres port_ok)).
   destruct (nonempty user || nonempty pw).
   - set (ui := quote_full T O CUser user ++ (if nonempty pw then 58 :: quote_full T O CUser pw else [])).
     assert (U64 : memN 64 ui = false).
@@ -175,7 +200,7 @@ Proof.
     - left. cbn [join]. exact Q0.
     - right. rewrite join_nonempty_head, Q0. cbn [app]. eauto. }
   rewrite (rfc_split_shape scheme _ _ _ (quote_full T O CFrag frag) NE Hs
-             (authority_chars T O TOK ht (weaken_host_chars ht ht_chars) ptxt pres port_ok user pw Su Sp) P0
+             (authority_chars T O TOK ht ht_chars ptxt pres port_ok user pw Su Sp) P0
              (path_chars T O TOK _ Fpath) (query_chars T O TOK q Fq)).
   rewrite SO, (userinfo_at user pw Su Sp). cbn [andb].
   assert (LP : legal (ok_path false) (join [47] (map (quote_full T O CPath) ([] :: rest))) = true).
@@ -209,7 +234,7 @@ Theorem rendered_legal T O :
   nfc [] = [] ->
   all_scalar (nfc user) = true -> all_scalar (nfc pw) = true -> all_scalar (nfc frag) = true ->
   Forall (fun s => all_scalar (nfc s) = true) rest ->
-  Forall (pair_ok O) q ->
+  Forall (C06_Round.pair_ok O) q ->
   host <> [] -> (fam =? 6) = false -> memN 58 host = false -> o_idna_enc O host = MOk ht ->
   ht <> [] -> forallb (not_in [58; 64; 47; 63; 35]) ht = true -> legal (ok_regname false) ht = true ->
   match port with Some p => (0 <= p < 65536)%Z | None => True end ->
@@ -222,7 +247,48 @@ Proof.
   pose proof (get_authority_plain T O ht (port_text T u) scheme sep user pw fam host port ([] :: rest) q frag
                 HNE F6 M58 ENC eq_refl) as GA.
   pose proof (to_text_rendered T O ht HTNE (port_text T u) scheme sep user pw fam host port rest q frag NE N0 GA) as R0.
-  fold u in R0. rewrite R0 in R. inversion R as [EF].
-  apply (rendered_wf T O TOK ht HTNE HTC HTL (port_text T u) (port_back T u) PO scheme user pw rest q frag
-           SO Hs N0 Su Sp Fr Fq Sf).
+  pose proof (eq_trans (eq_sym R0) R) as EF. inversion EF as [EF'].
+  apply (rendered_wf T O TOK ht (weaken_host_chars ht HTC) (port_text T u) (port_back T u) PO
+           (hostport_legal_plain (port_text T u) (port_back T u) PO ht HTNE HTC HTL)
+           scheme user pw rest q frag SO Hs N0 Su Sp Fr Fq Sf).
+Qed.
+
+Theorem rendered_legal_v6 T O :
+  tables_ok T = true ->
+  forall scheme sep user pw fam host port rest q frag,
+  let nfc := o_nfc O in
+  let u := mkU scheme sep user pw fam host port ([] :: rest) q frag in
+  scheme_ok scheme = true -> forallb (not_in [58; 47; 63; 35]) scheme = true ->
+  nfc [] = [] ->
+  all_scalar (nfc user) = true -> all_scalar (nfc pw) = true -> all_scalar (nfc frag) = true ->
+  Forall (fun s => all_scalar (nfc s) = true) rest ->
+  Forall (C06_Round.pair_ok O) q ->
+  (* an IPv6 literal: hex digits, ':' and '.', at least one ':' *)
+  memN 58 host = true -> forallb (fun c => hexdig c || memN c [58; 46]) host = true ->
+  match port with Some p => (0 <= p < 65536)%Z | None => True end ->
+  forall full, to_text T O true u = MOk full -> wf_ref false full = true.
+Proof.
+  intros TOK scheme sep user pw fam host port rest q frag nfc u
+         SO Hs N0 Su Sp Sf Fr Fq H58 HC PV full R.
+  assert (NE : scheme <> []) by (destruct scheme; discriminate).
+  assert (HNE : host <> []) by (destruct host; discriminate).
+  pose proof (port_text_ok T u PV) as PO.
+  set (ht := [91] ++ host ++ [93]).
+  assert (HTNE : ht <> []) by discriminate.
+  assert (HTC : forallb (not_in [64; 47; 63; 35]) ht = true).
+  { unfold ht. rewrite !forallb_app. cbn [forallb].
+    change (not_in [64; 47; 63; 35] 91) with true. change (not_in [64; 47; 63; 35] 93) with true.
+    cbn [andb]. rewrite andb_true_r.
+    apply forallb_forall. intros c Hc. rewrite forallb_forall in HC. specialize (HC c Hc). unfold not_in.
+    destruct (memN c [64; 47; 63; 35]) eqn:M; [|reflexivity].
+    cbn [memN] in M. repeat rewrite orb_false_r in M.
+    repeat (apply orb_true_iff in M as [M|M]); apply N.eqb_eq in M; subst c; discriminate. }
+  assert (F6 : (fam =? 6) || memN 58 host = true) by (rewrite H58; apply orb_true_r).
+  pose proof (get_authority_v6 T O ht (port_text T u) scheme sep user pw fam host port ([] :: rest) q frag
+                HNE F6 eq_refl eq_refl) as GA.
+  pose proof (to_text_rendered T O ht HTNE (port_text T u) scheme sep user pw fam host port rest q frag NE N0 GA) as R0.
+  pose proof (eq_trans (eq_sym R0) R) as EF. inversion EF as [EF'].
+  apply (rendered_wf T O TOK ht HTC (port_text T u) (port_back T u) PO
+           (hostport_legal_v6 (port_text T u) (port_back T u) PO host HNE HC)
+           scheme user pw rest q frag SO Hs N0 Su Sp Fr Fq Sf).
 Qed.
